@@ -275,6 +275,35 @@ func C11(ctx *Ctx) {
 			R.Fail("ram", name, mpos, fmt.Sprintf("%s performs %s on %s", name, e.Kind, base))
 			okRam = false
 		}
+		// the access happens for every address: the only condition it may sit under is the in-bounds test
+		// of the very index it uses (any other guard makes some cell of the window unreadable / unwritable)
+		{
+			o := ip.Ops
+			bc := &absint.BoolCtx{Conds: ip.In.Conds, O: &o}
+			okProps := map[string]bool{}
+			for _, w := range []int{32, 64} {
+				for _, sg := range []bool{false, true} {
+					l := absint.NewSym(64, ip.In.Atom("len(m."+dataF+")", 64, 1<<40), true)
+					if p, v := propOf(bc, "<", o.Convert(idx, w, false, sg), o.Convert(l, w, true, sg)); p != "" {
+						okProps[fmt.Sprintf("%s=%v", p, v)] = true
+					}
+				}
+			}
+			for _, g := range e.GuardL {
+				acc := false
+				if g.Cmp != nil {
+					for p, v := range guardProps(bc, []absint.GuardInfo{g}) {
+						if okProps[fmt.Sprintf("%s=%v", p, v)] {
+							acc = true
+						}
+					}
+				}
+				if !acc {
+					R.Fail("ram", name+":conditional", mpos, fmt.Sprintf("%s touches the cell only when %s is %v: some addresses of the window are not served", name, g.Key, g.Outcome))
+					okRam = false
+				}
+			}
+		}
 		if name == "Write" {
 			if v, ok := e.Args[2].(*absint.Int); !ok || v.Lin.Key() != val.Lin.Key() {
 				R.Fail("ram", "Write:value", mpos, "Write does not store the value it is given")
